@@ -665,25 +665,50 @@ def c01_r6(ctx):
     cls = prog.cls("matching.wrappers.InverseMatcher")
     ctx.saw(f)
     al = norm.aliases(f.node)
+    # the cursor may be worked on through locals (docnum = self._id ... self._id = docnum): the family of names whose value is
+    # copied from / into self._id, found by closing over plain copies
+    family = set(["self._id"])
+    changed = True
+    while changed:
+        changed = False
+        for st in ast.walk(f.node):
+            if isinstance(st, ast.Assign) and len(st.targets) == 1 and isinstance(st.value, (ast.Name, ast.Attribute)) \
+                    and isinstance(st.targets[0], (ast.Name, ast.Attribute)):
+                t, v = norm.canon(st.targets[0]), norm.canon(st.value)
+                if v in family and isinstance(st.targets[0], ast.Name) and t not in family:
+                    family.add(t)          # docnum = self._id ;  d2 = docnum
+                    changed = True
+                if t in family and isinstance(st.value, ast.Name) and v not in family:
+                    family.add(v)          # self._id = docnum ;  docnum = d2
+                    changed = True
+    family = set(x for x in family if x == "self._id" or "." not in x)
+
+    def cur(text):
+        # canonical text with every member of the family spelled CUR
+        out = text
+        for m_ in sorted(family, key=len, reverse=True):
+            out = re.sub(r"(?<![\w.])%s(?![\w])" % re.escape(m_), "CUR", out)
+        return out
 
     def stmt_event(func, node):
         a = node.ast
-        if node.kind == "stmt" and isinstance(a, (ast.Assign, ast.AugAssign)):
-            tg = a.targets if isinstance(a, ast.Assign) else [a.target]
-            if any(norm.canon(t) == "self._id" for t in tg):
+        if node.kind == "stmt" and isinstance(a, ast.AugAssign) and norm.canon(a.target) in family:
+            return "moved"
+        if node.kind == "stmt" and isinstance(a, ast.Assign):
+            if any(norm.canon(t) in family for t in a.targets) and not (isinstance(a.value, (ast.Name, ast.Attribute)) and norm.canon(a.value) in family):
                 return "moved"
         return None
 
     def edge_event(func, node, label):
         if node.kind != "test":
             return None
-        t = norm.canon(node.ast, al)
+        t = cur(norm.canon(node.ast, al))
         pol = label[0]
-        if t == "self.missing(self._id)":
+        if t == "self.missing(CUR)":
             return "accepted" if pol == "F" else "rejected"
-        if t == "(self._id < self.limit)" and pol == "F":
+        if t == "(CUR < self.limit)" and pol == "F":
             return "accepted"
-        if t == "(self.limit <= self._id)" and pol == "T":
+        if t == "(self.limit <= CUR)" and pol == "T":
             return "accepted"
         return None
 
@@ -706,8 +731,9 @@ def c01_r6(ctx):
         if g is None:
             continue
         last_set = None
-        calls_find = [c.lineno for c in norm.calls_in(g.node) if norm.canon(c) == "self._find_next()"]
-        sets = [st.lineno for st in ast.walk(g.node) if isinstance(st, (ast.Assign, ast.AugAssign)) and
+        gpos = norm.source_pos(g.node)
+        calls_find = [gpos(c) for c in norm.calls_in(g.node) if norm.canon(c) == "self._find_next()"]
+        sets = [gpos(st) for st in ast.walk(g.node) if isinstance(st, (ast.Assign, ast.AugAssign)) and
                 any(norm.canon(t) == "self._id" for t in (st.targets if isinstance(st, ast.Assign) else [st.target]))]
         ctx.ob(g, bool(calls_find) and (not sets or max(sets) < max(calls_find)), "%s() calls _find_next() after its last change of self._id" % mname)
 
